@@ -116,10 +116,72 @@ def buf_some(t):
     return None
 
 
+class _Rec:
+    """Collects the obligations of a rule body instead of reporting them (so that two decision procedures for the same
+    clauses can be tried and the verdict of the one that succeeds reported)."""
+
+    def __init__(self, ctx):
+        self._ctx = ctx
+        self.facts = ctx.facts
+        self.items = []
+
+    def ob(self, rule, key, ok, msg, loc=None, witness=None):
+        self.items.append((rule, key, bool(ok), msg, loc, witness))
+        return bool(ok)
+
+    def fail(self, rule, key, msg, loc=None, witness=None):
+        self.items.append((rule, key, False, msg, loc, witness))
+        return False
+
+    def failed(self):
+        return [i for i in self.items if not i[2]]
+
+    def replay(self, ctx):
+        for (rule, key, ok, msg, loc, witness) in self.items:
+            ctx.ob(rule, key, ok, msg, loc, witness)
+
+    def __getattr__(self, name):
+        return getattr(self._ctx, name)
+
+
 def paths(ctx, remap=None, only=None):
-    facts = ctx.facts
+    """R06.1-R06.5, decided twice: by the shape of today's bookkeeping (the buffer stays inside the Option, two steering
+    flags) and, when that shape is not there, by the abstract value of the unsent bytes (paths_abstract: which object is
+    written and what state it and the slot are left in per write outcome -- independent of whether the buffer is
+    borrowed in place or taken out and put back).  Each procedure is sufficient on its own; a violation is reported
+    only when neither can establish the clauses."""
     if remap:
         ctx = _Remap(ctx, remap, only)
+    import os
+    mode = os.environ.get("MHSA_WRITER")        # development switch: run one of the two procedures alone
+    if mode == "classic":
+        return _paths_classic(ctx)
+    if mode == "abstract":
+        return paths_abstract(ctx)
+    a = _Rec(ctx)
+    try:
+        _paths_classic(a)
+    except AnalysisError as e:
+        a.fail("R06.1", "cannot-establish|classic", str(e))
+    if not a.failed():
+        a.replay(ctx)
+        return
+    b = _Rec(ctx)
+    try:
+        paths_abstract(b)
+    except AnalysisError as e:
+        b.fail("R06.1", "cannot-establish|abstract", str(e))
+    if not b.failed():
+        b.replay(ctx)
+        ctx.ob("R06.1", "decided-by-abstract-value", True, "try_write does not have the in-place shape (%d clause(s) not matched); decided on the abstract value of the unsent bytes instead" % len(a.failed()))
+        return
+    a.replay(ctx)
+    for (rule, key, ok, msg, loc, witness) in b.failed():
+        ctx.ob(rule, "abstract|" + key, ok, "(abstract-value form) " + msg, loc, witness)
+
+
+def _paths_classic(ctx):
+    facts = ctx.facts
     fn, lv = leaves(ctx, conn.TRY_WRITE)
     ctx.ob("R06.1", "no-cycle", not fn.cycles(), "try_write has no CFG cycle (cycles: %s)" % fn.cycles(), fn.loc(0))
     seen = set()
@@ -261,6 +323,11 @@ def paths(ctx, remap=None, only=None):
             ctx.ob("R06.3", "closed-only-on-zero-or-error|bb%d" % lf.trace[-3], not is_closed and not clears, "ConnectionClosed / discard happens only for Ok(0) or a non-Interrupted error", fn.loc(lf.bb))
     want = {"ok0", "short", "full", "interrupted", "error", "invalid-write"}
     ctx.ob("R06.1", "outcomes-covered", want <= seen, "write outcomes with a path: %s (need %s)" % (sorted(seen), sorted(want)), fn.loc(0))
+    _writer_surroundings(ctx)
+
+
+def _writer_surroundings(ctx):
+    facts = ctx.facts
     # enqueue_response is push_back of its argument
     fe, le = leaves(ctx, conn.P + "enqueue_response")
     for lf in le:
@@ -278,6 +345,407 @@ def paths(ctx, remap=None, only=None):
     for u in users:
         roots |= writer_roots(facts, u)
     ctx.ob("R06.1", "stream-users", roots <= {conn.TRY_WRITE, conn.RECV}, "functions that borrow HttpConnection.stream: %s (on behalf of %s)" % (sorted(users), sorted(roots)))
+
+
+def paths_abstract(ctx):
+    """The writer's clauses on abstract values.  Objects: OLD = the bytes the unsent buffer held at entry (exists iff the
+    buffer was Some), SER = the vector Response::write_all filled for the response popped in this call.  The slot
+    (self.response_buffer) holds ENTRY (untouched), NONE or SOME(object); objects moved out of the slot (take / replace)
+    are followed through the call that moved them.  Per path, in event order:
+      - a response is popped (pop_front, once) only when it is established that no unsent bytes exist (entry None);
+      - the one stream call is Write::write of the unsent object (OLD, or SER of the popped response), undrained;
+      - by outcome (0 <= n <= len trusted): Ok(0) / other error -> clear_write_buffer, ConnectionClosed;
+        short -> exactly the first n bytes removed from that object and the slot holds it; full -> slot None;
+        Interrupted -> the slot holds the object unchanged; nothing discarded in the last three.
+    Anything applied to the slot or an object that is not understood fails closed."""
+    from ..lin import Lin, State
+    facts = ctx.facts
+    fn, lv = leaves(ctx, conn.TRY_WRITE, lower=True)
+    ctx.ob("R06.1", "no-cycle", not fn.cycles(), "try_write has no CFG cycle (cycles: %s)" % fn.cycles(), fn.loc(0))
+    seen = set()
+    READERS = ("len", "as_slice", "is_empty", "deref", "as_ref", "as_ptr", "iter", "capacity", "borrow", "first", "last", "get", "starts_with", "ends_with", "to_vec", "clone")
+
+    for lf in lv:
+        rk = ret_kind(lf)
+        if rk is None:
+            ctx.fail("R06.1", "non-returning-path|%s" % lf.kind, "try_write has a path that does not return (%s)" % lf.kind, fn.loc(lf.bb))
+            continue
+
+        def is_slot(t):
+            """self.response_buffer -- or, after a store on this path, the stored value the engine forwards to later reads"""
+            if self_field(t, "response_buffer"):
+                return True
+            t = look(t)
+            while t[0] == "mut":
+                t = look(t[1])
+            if t[0] == "agg" and t[1].startswith("std::option::Option") and isinstance(st["slot"], tuple):
+                return t[2] == "Some" and obj_of(t[3][0]) == st["slot"][1]
+            return False
+
+        st = {"slot": "ENTRY", "entry_none": None, "objs": {"OLD": {"drained": [], "shift": None}}, "bound": {}, "pops": [], "qcleared": 0,
+              "W": [], "problems": [], "infeasible": False, "lens": {}, "stores": 0}
+
+        def entry_opt():
+            return "NONE" if st["entry_none"] is True else ("SOME", "OLD") if st["entry_none"] is False else "ENTRYOPT"
+
+        def slot_val():
+            return entry_opt() if st["slot"] == "ENTRY" else st["slot"]
+
+        def opt_of(t):
+            """abstract Option value of a term: 'NONE' | ('SOME', oid) | 'ENTRYOPT' | None (not understood)"""
+            t = look(t)
+            while t[0] == "mut":
+                t = look(t[1])
+            if t[0] == "agg" and t[1].startswith("std::option::Option"):
+                if t[2] == "None":
+                    return "NONE"
+                o = obj_of(t[3][0])
+                return ("SOME", o) if o is not None else None
+            if is_slot(t):
+                return slot_val()
+            if t[0] == "call" and norm(t) in st["bound"]:
+                v = st["bound"][norm(t)]
+                return entry_opt() if v == "ENTRYOPT" else v
+            if is_call(t, "as_mut", "as_ref", "as_deref", "as_deref_mut") and "Option" in t[1] and t[2]:
+                return opt_of(t[2][0])
+            return None
+
+        def obj_of(t):
+            """the vector object a term denotes (by value or by reference), or None"""
+            t = look(t)
+            while t[0] == "mut":
+                t = look(t[1])
+            if t[0] == "call" and last_seg(t[1]) in ("new", "with_capacity") and "Vec" in t[1]:
+                k = ("SER", norm(t))
+                return k if k in st["objs"] else None
+            if is_call(t, "as_slice", "as_mut_slice", "deref", "deref_mut", "as_ref", "as_mut", "borrow", "borrow_mut") and "Option" not in t[1] and t[2]:
+                return obj_of(t[2][0])
+            if is_call(t, "std::option::Option::<T>::insert") and len(t[2]) == 2 and is_slot(t[2][0]):
+                return obj_of(t[2][1])
+            if is_call(t, "std::option::Option::<T>::get_or_insert") and len(t[2]) == 2 and is_slot(t[2][0]):
+                v = slot_val()
+                return v[1] if isinstance(v, tuple) else None
+            src = payload_of(t)
+            if src is not None:
+                v = opt_of(src)
+                if v == "ENTRYOPT":
+                    return "OLD"        # the payload of the entry option exists only if it was Some: that object is OLD
+                if isinstance(v, tuple):
+                    return v[1]
+            return None
+
+        def tested_option(t, c):
+            """(abstract option tested, True for Some / False for None) for a condition on an Option we follow"""
+            from .util import tested_call
+            some = None
+            z = None
+            if t[0] == "discr":
+                y = look(t[1])
+                if is_call(y, "branch") and y[2]:
+                    y = look(y[2][0])
+                    while is_call(y, "ok_or", "ok_or_else") and y[2]:
+                        y = look(y[2][0])
+                    some = True if c == ("eq", 0) else False if c in (("eq", 1), ("ne", (0,))) else None
+                else:
+                    some = option_is_some(c)
+                z = y
+            else:
+                x = t
+                neg = False
+                while x[0] == "un" and x[1] == "Not":
+                    x, neg = look(x[2]), not neg
+                if is_call(x, "is_none", "is_some") and "Option" in x[1] and x[2] and truth(c) is not None:
+                    some = truth(c) if last_seg(x[1]) == "is_some" else not truth(c)
+                    if neg:
+                        some = not some
+                    z = look(x[2][0])
+            if z is None or some is None:
+                return None
+            while is_call(z, "as_mut", "as_ref", "as_deref", "as_deref_mut") and "Option" in z[1] and z[2]:
+                z = look(z[2][0])
+            while z[0] == "mut":
+                z = look(z[1])
+            if z[0] == "agg" and z[1].startswith("std::option::Option") and z[2] in ("Some", "None") and not is_slot(z):
+                if (z[2] == "Some") != some:
+                    st["infeasible"] = True     # a test of a literal Option (a value forwarded along the path) against its own variant
+                return None
+            if is_slot(z):
+                return ("slot", some)
+            if z[0] == "call" and norm(z) in st["bound"]:
+                return (("bound", norm(z)), some)
+            return None
+
+        def set_entry(none):
+            if st["entry_none"] is None:
+                st["entry_none"] = none
+            elif st["entry_none"] != none:
+                st["infeasible"] = True
+
+        def learn(which, some):
+            v = st["slot"] if which == "slot" else st["bound"][which[1]]
+            if v in ("ENTRY", "ENTRYOPT"):
+                set_entry(not some)
+            elif (v == "NONE") == some:
+                st["infeasible"] = True
+
+        W = None
+        for e in lf.events:
+            if st["infeasible"]:
+                break
+            if e[0] == "cond":
+                to = tested_option(e[3], e[4])
+                if to is not None:
+                    learn(*to)
+                continue
+            if e[0] == "assign":
+                if e[3] == "(*_1).response_buffer":
+                    v = opt_of(e[4])
+                    if v is None or v == "ENTRYOPT":
+                        st["problems"].append("the value stored in the unsent-buffer slot is not understood: %s" % term_s(e[4])[:100])
+                    else:
+                        st["slot"] = v
+                        st["stores"] += 1
+                elif e[3].startswith("(*_1).response_buffer"):
+                    st["problems"].append("a store inside the unsent-buffer slot: %s" % e[3])
+                continue
+            if e[0] != "call":
+                continue
+            p, args = e[3], e[4][2]
+            seg = last_seg(p)
+            a0 = look(args[0]) if args else None
+            # the slot as a whole
+            if args and is_slot(a0) and "Option" in p or (p in ("std::mem::take", "std::mem::replace") and args and is_slot(a0)):
+                if seg == "take":
+                    st["bound"][norm(e[4])] = "ENTRYOPT" if st["slot"] == "ENTRY" else st["slot"]
+                    st["slot"] = "NONE"
+                elif seg == "replace":
+                    st["bound"][norm(e[4])] = "ENTRYOPT" if st["slot"] == "ENTRY" else st["slot"]
+                    v = opt_of(("agg", "std::option::Option", "Some", (args[1],))) if "Option" in p else opt_of(args[1])
+                    if v is None or v == "ENTRYOPT":
+                        st["problems"].append("replace() stores a value that is not understood")
+                    else:
+                        st["slot"] = v
+                        st["stores"] += 1
+                elif seg == "insert":
+                    o = obj_of(args[1])
+                    if o is None:
+                        st["problems"].append("insert() stores a vector that is not understood")
+                    else:
+                        st["slot"] = ("SOME", o)
+                        st["stores"] += 1
+                elif seg == "get_or_insert":
+                    v = slot_val()
+                    if v == "NONE":
+                        o = obj_of(args[1])
+                        if o is None:
+                            st["problems"].append("get_or_insert() stores a vector that is not understood")
+                        else:
+                            st["slot"] = ("SOME", o)
+                            st["stores"] += 1
+                    elif v == "ENTRYOPT":
+                        st["problems"].append("get_or_insert() on a slot not known to be empty")
+                elif seg in ("as_mut", "as_ref", "is_none", "is_some", "as_deref", "as_deref_mut", "iter", "ok_or", "ok_or_else", "unwrap", "expect", "is_some_and", "is_none_or", "map", "and_then", "unwrap_or_default"):
+                    pass        # reads of the slot / adapters of a borrow of it (`as_mut().ok_or(..)`); what is done through the borrow is followed on the object
+                else:
+                    st["problems"].append("%s applied to the unsent-buffer slot" % seg)
+                continue
+            if p == conn.P + "clear_write_buffer":
+                st["slot"] = "NONE"
+                st["qcleared"] += 1
+                continue
+            if args and self_field(a0, "response_queue"):
+                if seg in ("pop_front", "pop_back", "remove", "swap_remove_front", "swap_remove_back"):
+                    no_unsent = st["entry_none"] is True and st["slot"] in ("ENTRY", "NONE")
+                    st["pops"].append((e, no_unsent))
+                elif seg in ("clear", "truncate", "drain", "retain", "split_off"):
+                    st["problems"].append("the response queue is emptied in place (%s)" % seg)
+                continue
+            if p == "response::Response::write_all" and len(args) == 2:
+                sink = look(args[1])
+                while sink[0] == "mut":
+                    sink = look(sink[1])
+                if sink[0] == "call" and last_seg(sink[1]) in ("new", "with_capacity") and "Vec" in sink[1]:
+                    st["objs"][("SER", norm(sink))] = {"drained": [], "shift": None, "resp": look(args[0]), "ev": e}
+                else:
+                    st["problems"].append("a response is serialized into something that is not a fresh vector")
+                continue
+            if any(isinstance(s_, tuple) and s_ and s_[0] == "field" and s_[3] == "stream" and s_[2] == conn.HC for a in args for s_ in direct_subterms(a)):
+                o = obj_of(args[1]) if p == "std::io::Write::write" and len(args) == 2 and self_field(args[0], "stream") else None
+                st["W"].append((e, o, list(st["objs"][o]["drained"]) if o in st["objs"] else None, p))
+                continue
+            # operations on a vector object
+            o = obj_of(a0) if args else None
+            if o is None:
+                continue
+            ob_ = st["objs"][o]
+            if seg in READERS and not (args[0][0] == "ref" and len(args[0]) > 2 and args[0][2] and seg not in ("deref", "as_ref", "borrow", "iter")):
+                if seg == "len":
+                    st["lens"][norm(e[4])] = (o, not ob_["drained"] and ob_["shift"] is None)
+                continue
+            if seg in ("deref_mut", "as_mut", "as_mut_slice", "borrow_mut", "deref", "as_ref", "iter"):
+                continue
+            r = look(args[1]) if len(args) > 1 else None
+            if seg == "drain" and r is not None and r[0] == "agg" and r[1].startswith("std::ops::RangeTo") and not r[1].startswith("std::ops::RangeToInclusive"):
+                ob_["drained"].append(look(r[3][0]))
+            elif seg == "copy_within" and len(args) == 3 and r[0] == "agg" and r[1].startswith("std::ops::RangeFrom") and const_of(args[2]) == 0 and ob_["shift"] is None:
+                ob_["shift"] = look(r[3][0])
+            elif seg == "truncate" and ob_["shift"] is not None and _is_len_minus(r, ob_["shift"], lambda t: st["lens"].get(norm(look(t))) == (o, True)):
+                # the unsent tail was moved to the front (copy_within(n.., 0)) and the vector cut to len - n: the first n bytes are gone
+                ob_["drained"].append(ob_["shift"])
+                ob_["shift"] = None
+            else:
+                st["problems"].append("%s applied to the unsent bytes is not a removal of a written prefix" % seg)
+        if st["infeasible"]:
+            continue
+        loc = fn.loc(lf.bb)
+        final = slot_val()
+        if st["problems"]:
+            for i, m in enumerate(sorted(set(st["problems"]))):
+                ctx.fail("R06.1", "not-understood|%d" % i, m, loc)
+            continue
+        # R06.4: pop
+        pops = st["pops"]
+        sers = [o for o in st["objs"] if o != "OLD"]
+        if pops or sers:
+            ok = len(pops) == 1 and last_seg(pops[0][0][3]) == "pop_front" and pops[0][1]
+            ctx.ob("R06.4", "pop-only-when-buffer-empty", ok, "a response is taken (pop_front, once) only once it is established that there are no unsent bytes (pops: %s, established: %s)" % ([last_seg(p_[0][3]) for p_ in pops], [p_[1] for p_ in pops]), fn.loc((pops[0][0] if pops else st["objs"][sers[0]]["ev"])[1]))
+        ser_ok = None
+        if sers:
+            so = st["objs"][sers[0]]
+            resp = so["resp"]
+            src_ok = len(sers) == 1 and bool(pops) and payload_of(resp) is not None and norm(payload_of(resp)) == norm(pops[0][0][4])
+            failed = result_outcome(lf, so["ev"][4]) == "err"
+            if failed:
+                seen.add("serialize-error")
+                returned = rk[0] == "prop"
+                if rk[0] == "Err":
+                    ev_ = look(rk[1])
+                    returned = ev_[0] == "agg" and ev_[2] == "StreamWriteError"
+                ctx.ob("R06.4", "serialize-error-propagated", returned and not st["W"], "a serialization error is returned and the stream is not touched", loc)
+                continue
+            ser_ok = src_ok
+        Ws = st["W"]
+        if not Ws:
+            errv = look(rk[1]) if rk[0] == "Err" else (propagated_error(rk[1])[1] if rk[0] == "prop" else None)
+            if errv is not None and errv[0] == "agg" and errv[2] == "InvalidWrite":
+                seen.add("invalid-write")
+                q_empty = any(t[0] == "discr" and is_call(look(t[1]), "pop_front") and option_is_some(c) is False for (t, c, _b) in lf.conds)
+                q_empty = q_empty or (bool(pops) and rk[0] == "prop" and norm(propagated_error(rk[1])[0]) == norm(pops[0][0][4]))
+                from .util import option_test
+                q_empty = q_empty or any(option_test(t, c, lambda y: is_call(y, "pop_front")) == "none" for (t, c, _b) in lf.conds)
+                ctx.ob("R06.1", "invalid-write|nothing-pending-and-untouched", st["entry_none"] is True and final == "NONE" and q_empty and not sers and not st["qcleared"], "InvalidWrite is returned only with no unsent buffer and an empty queue, without touching the stream", loc)
+            else:
+                ctx.ob("R06.1", "no-write-path|inert", rk[0] == "Ok" and st["slot"] == "ENTRY" and not pops and not st["qcleared"] and not any(o_["drained"] or o_["shift"] is not None for o_ in st["objs"].values()), "a path without a stream write changes nothing (returns %s, slot %s, entry buffer None: %s)" % (rk[0], st["slot"], st["entry_none"]), loc, witness="blocks %s" % lf.trace[-12:])
+            continue
+        e, o, drained_before, p = Ws[0]
+        expected = "OLD" if st["entry_none"] is False else (sers[0] if st["entry_none"] is True and sers and ser_ok else None)
+        ok1 = len(Ws) == 1 and p == "std::io::Write::write" and o is not None and o == expected and drained_before == []
+        ctx.ob("R06.1", "one-write-of-unsent-bytes|bb%d" % lf.trace[-3], ok1, "exactly one stream call: Write::write(self.stream, all the unsent bytes: the buffer held at entry, or the serialization of the response just popped) (calls: %s, object: %s, expected: %s)" % ([w[3] for w in Ws], o if o is None or o == "OLD" else "SER", expected if expected in (None, "OLD") else "SER"), fn.loc(e[1]))
+        if sers:
+            ctx.ob("R06.4", "serialized-popped-response-into-buffer", bool(ser_ok) and o == sers[0], "the popped response is serialized with Response::write_all into a fresh vector and exactly that vector is what is written and kept", fn.loc(st["objs"][sers[0]]["ev"][1]))
+        if not ok1:
+            continue
+        Wt = e[4]
+        # the outcome of the write: result, and n against the length, by linear arithmetic over the path's tests
+        wres = None
+        interrupted = None
+        ls = State()
+        N, L = Lin.atom("n"), Lin.atom("len")
+        ls.add_le(N.scale(-1))
+        ls.add_le(N - L)
+
+        def side(x):
+            x = look(x)
+            while x[0] == "cast":
+                x = look(x[1])
+            if const_of(x) is not None and isinstance(const_of(x), int) and not isinstance(const_of(x), bool):
+                return Lin.const(const_of(x))
+            if payload_of(x) is not None and x[0] != "bin" and norm(payload_of(x)) == norm(Wt):
+                return N
+            if is_call(x, "len") and st["lens"].get(norm(x)) == (o, True):
+                return L
+            return None
+
+        for (t, c, _b) in lf.conds:
+            if t[0] == "discr" and norm(look(t[1])) == norm(Wt):
+                wres = "ok" if c == ("eq", 0) else "err" if c == ("eq", 1) else wres
+                if c[0] == "ne" and len(c[1]) == 1:
+                    wres = "ok" if c[1][0] == 1 else "err"
+            x = look(t)
+            if side(x) is N and x[0] != "bin":
+                if c[0] == "eq" and not isinstance(c[1], bool):
+                    ls.add_eq(N - Lin.const(c[1]))
+                elif c[0] == "ne":
+                    for k in c[1]:
+                        ls.add_ne(N - Lin.const(k))
+            if t[0] == "bin" and t[1] in ("Lt", "Le", "Gt", "Ge", "Eq", "Ne") and truth(c) is not None:
+                a_, b_ = side(t[2]), side(t[3])
+                if a_ is not None and b_ is not None:
+                    op = t[1]
+                    if not truth(c):
+                        op = {"Lt": "Ge", "Le": "Gt", "Gt": "Le", "Ge": "Lt", "Eq": "Ne", "Ne": "Eq"}[op]
+                    d = a_ - b_
+                    if op == "Lt":
+                        ls.add_le(d + Lin.const(1))
+                    elif op == "Le":
+                        ls.add_le(d)
+                    elif op == "Gt":
+                        ls.add_le(d.scale(-1) + Lin.const(1))
+                    elif op == "Ge":
+                        ls.add_le(d.scale(-1))
+                    elif op == "Eq":
+                        ls.add_eq(d)
+                    else:
+                        ls.add_ne(d)
+            if is_call(t, "eq", "ne") and any(is_call(s_, "kind") for s_ in subterms(t) if isinstance(s_, tuple)):
+                other = [a_ for a_ in t[2] if not any(is_call(s_, "kind") for s_ in subterms(a_) if isinstance(s_, tuple))]
+                if other and look(other[0]) == INTERRUPTED:
+                    tv = truth(c)
+                    interrupted = tv if last_seg(t[1]) == "eq" else (None if tv is None else not tv)
+        ls.sharpen()
+        if ls.inconsistent():
+            continue        # the tests made on n along this path contradict each other (0 < n failed, then n matched against a non-zero pattern, ...)
+        zero = wres == "ok" and ls.entails_eq(N)
+        short = wres == "ok" and ls.entails_le(Lin.const(1) - N) and ls.entails_le(N - L + Lin.const(1))
+        full = wres == "ok" and ls.entails_le(Lin.const(1) - N) and ls.entails_eq(N - L)
+        is_closed = rk[0] == "Err" and look(rk[1])[0] == "agg" and look(rk[1])[2] == "ConnectionClosed"
+        wo = st["objs"][o]
+        kept = final == ("SOME", o)
+        if zero:
+            seen.add("ok0")
+            ctx.ob("R06.3", "ok0|cleared-and-closed", is_closed and st["qcleared"] == 1 and final == "NONE", "write returned Ok(0): pending output discarded (clear_write_buffer) and ConnectionClosed returned", loc)
+        elif short:
+            seen.add("short")
+            dr = wo["drained"]
+            ok = kept and rk[0] == "Ok" and len(dr) == 1 and wo["shift"] is None and payload_of(dr[0]) is not None and norm(payload_of(dr[0])) == norm(Wt)
+            ctx.ob("R06.2", "short|drain-exactly-written", ok, "short write: exactly the first n bytes are removed from the unsent bytes, n the count that very write returned; they stay the unsent buffer, Ok returned", loc)
+        elif full:
+            seen.add("full")
+            ctx.ob("R06.5", "full|buffer-none", final == "NONE" and rk[0] == "Ok", "full write: the unsent buffer is None afterwards, Ok returned (slot afterwards: %s)" % (final,), loc, witness="blocks %s" % lf.trace[-12:])
+        elif wres == "err" and interrupted is True:
+            seen.add("interrupted")
+            ctx.ob("R06.2", "interrupted|nothing-removed", kept and not wo["drained"] and wo["shift"] is None and rk[0] == "Ok", "Interrupted: the unsent bytes stay the unsent buffer, nothing removed, Ok returned (retry later)", loc)
+        elif wres == "err" and interrupted is False:
+            seen.add("error")
+            ctx.ob("R06.3", "error|cleared-and-closed", is_closed and st["qcleared"] == 1 and final == "NONE", "any other write error: pending output discarded and ConnectionClosed returned", loc)
+        else:
+            ctx.fail("R06.1", "unclassified-write-outcome|%s/%s" % (wres, interrupted), "a path after the stream write is not decided by Ok(0)/short/full/Interrupted/other error", loc, witness="blocks %s" % lf.trace[-10:])
+        if not zero and not (wres == "err" and interrupted is False):
+            ctx.ob("R06.3", "closed-only-on-zero-or-error|bb%d" % lf.trace[-3], not is_closed and not st["qcleared"], "ConnectionClosed / discard happens only for Ok(0) or a non-Interrupted error", loc)
+    want = {"ok0", "short", "full", "interrupted", "error", "invalid-write"}
+    ctx.ob("R06.1", "outcomes-covered", want <= seen, "write outcomes with a path: %s (need %s)" % (sorted(seen), sorted(want)), fn.loc(0))
+    _writer_surroundings(ctx)
+
+
+def _is_len_minus(t, n, is_len):
+    """t == len - n (the length taken before anything was removed)"""
+    t = look(t)
+    if t[0] == "field" and t[3] == "0" and look(t[1])[0] == "bin":
+        t = look(t[1])
+    if t[0] == "bin" and t[1] in ("Sub", "SubWithOverflow", "SubUnchecked"):
+        return is_len(t[2]) and norm(look(t[3])) == norm(look(n))
+    return False
+
 
 
 def strip_mut(t):
